@@ -310,7 +310,14 @@ async fn run_history(ops: &[Op], ack_deadline_s: u64, uptime_days: u64) -> Resul
             // a message held nowhere is lost: it can no longer be redelivered (C01 "until acknowledged", C04 "becomes available
             // for redelivery"); anything else is attributed to the kind of step that produced it
             let (have, want) = (stats.outstanding_messages_count + stats.backlog_messages_count, m.leases.len() + m.ghosts.len() + m.pending.len());
-            let tag = if have < want { "C01+C04" } else { stats_tag };
+            let mut tag = if have < want { "C01+C04" } else { stats_tag };
+            if have == want && stats.outstanding_messages_count > m.leases.len() + m.ghosts.len() {
+                // a lease that should have been requeued is still outstanding: late (C04) - or stuck for good, in which case
+                // the message is never redelivered (C01)? Every deadline is at most 600 s away; look again after 700 s.
+                tokio::time::advance(Duration::from_secs(700)).await;
+                settle().await;
+                if let Ok(later) = sub.get_stats().await { if later.outstanding_messages_count > 0 { tag = "C04+C01"; } }
+            }
             return fail(tag, format!("stats outstanding/backlog = {}/{}, expected {}/{}", stats.outstanding_messages_count, stats.backlog_messages_count, m.leases.len() + m.ghosts.len(), m.pending.len()));
         }
         let stats2 = sub2.get_stats().await.map_err(|_| setup("stats"))?;
